@@ -1483,16 +1483,14 @@ def run(env, tool, args, stdin_path=None, stdin_bytes=None, extra_env=None, time
     fin = open(stdin_path, "rb") if stdin_path else subprocess.DEVNULL
     fout = open(stdout_path, "wb") if stdout_path else subprocess.PIPE
     r = NS(rc=None, out=b"", err=b"", crash=None, tool=tool, argv=argv)
-
-    def limit_cpu():
-        import resource
-        resource.setrlimit(resource.RLIMIT_CPU, (int(timeout), int(timeout) + 5))
-
+    # CPU-time limit through the shell's `ulimit -t` (no preexec_fn: that would force a real fork() of this large, multi-threaded
+    # process for every tool run instead of vfork/posix_spawn)
+    wrapped = ["/bin/sh", "-c", "ulimit -t %d; exec \"$@\"" % int(timeout), "sh"] + [a if isinstance(a, (bytes, str)) else str(a) for a in argv]
     try:
         if stdin_bytes is not None and not stdin_path:
-            p = subprocess.run(argv, input=stdin_bytes, stdout=fout, stderr=subprocess.PIPE, env=e, timeout=WALL_TIMEOUT, preexec_fn=limit_cpu)
+            p = subprocess.run(wrapped, input=stdin_bytes, stdout=fout, stderr=subprocess.PIPE, env=e, timeout=WALL_TIMEOUT)
         else:
-            p = subprocess.run(argv, stdin=fin, stdout=fout, stderr=subprocess.PIPE, env=e, timeout=WALL_TIMEOUT, preexec_fn=limit_cpu)
+            p = subprocess.run(wrapped, stdin=fin, stdout=fout, stderr=subprocess.PIPE, env=e, timeout=WALL_TIMEOUT)
         r.rc, r.out, r.err = p.returncode, p.stdout or b"", p.stderr or b""
         if r.rc in (-24, -9) and b"Sanitizer" not in r.err:          # SIGXCPU (soft limit) / SIGKILL (hard limit): CPU time exhausted
             r.crash = "timeout"
